@@ -215,10 +215,14 @@ impl C12 {
         // different directories (team-a/checks.guard, team-b/checks.guard)
         let nested = r.chance(1, 3);
         let same_base = r.chance(1, 4);
+        let same_base_data = wl.docs.len() > 1 && r.chance(1, 5);
+        if same_base_data {
+            rep.count("gen.same_base_name_data", 1);
+        }
         let mut files = Vec::new();
         let mut data = Vec::new();
         for (i, (d, f)) in wl.docs.iter().enumerate() {
-            let rel = if nested && i % 2 == 1 { format!("data/sub/d{}.{}", i, f.ext()) } else { doc_rel(i, *f) };
+            let rel = if same_base_data { format!("data/env-{}/template.{}", i, f.ext()) } else if nested && i % 2 == 1 { format!("data/sub/d{}.{}", i, f.ext()) } else { doc_rel(i, *f) };
             files.push(FileSpec { rel: rel.clone(), bytes: doc::render(d, *f).into_bytes(), mtime_ns: 0 });
             data.push(rel);
         }
